@@ -219,10 +219,20 @@ static void check_c07(const Song &s, const Cfg &c, en::CaseOut &o) {
                 Exp &A = exp[v[x]], &B = exp[v[y]]; int oa = order_of[v[x]], ob = order_of[v[y]];
                 bool ctrlA = A.kind == K_CC7 || A.kind == K_PROG || A.kind == K_CC64 || A.kind == K_CC10 || A.kind == K_CC11 || A.kind == K_BANKM || A.kind == K_BANKL;
                 if(ctrlA && B.kind == K_ON && oa > ob) { snprintf(b, sizeof b, "track %d tick %u: %s delivered after a note-on of the same tick", (int)k, A.tick, KN[A.kind]); o.fail("C07/order/controller-after-noteon", b + ctx); return; }
+                // note events of the one key: an inversion of the file order is justified only for a note-off of a note that was sounding before this tick overtaking a note-on
+                if((A.kind == K_ON || A.kind == K_OFF) && (B.kind == K_ON || B.kind == K_OFF) && A.kind != B.kind && A.idx < B.idx && oa > ob && !(B.kind == K_OFF && sounding)) {
+                    snprintf(b, sizeof b, "track %d tick %u: %s (index %d) precedes %s (index %d) in the file but was delivered after it; the key was %s before this tick", (int)k, A.tick, KN[A.kind], A.idx, KN[B.kind], B.idx, sounding ? "sounding" : "silent");
+                    o.fail(B.kind == K_ON ? "C07/order/noteoff-moved-behind-later-noteon" : "C07/order/noteoff-of-silent-key-moved-before-noteon", b + ctx); return; }
                 if(A.kind == K_OFF && B.kind == K_ON && sounding && A.idx < B.idx && oa > ob) { snprintf(b, sizeof b, "track %d tick %u: note-off of an already sounding note delivered after the note-on of the same tick", (int)k, A.tick); o.fail("C07/order/noteoff-after-noteon", b + ctx); return; }
                 if(A.kind == B.kind && A.idx < B.idx && oa > ob) { snprintf(b, sizeof b, "track %d tick %u: two %s events changed their file order", (int)k, A.tick, KN[A.kind]); o.fail("C07/order/same-kind-reordered", b + ctx); return; }
             }
-            for(size_t x = 0; x < v.size(); x++) { if(exp[v[x]].kind == K_ON) sounding = true; else if(exp[v[x]].kind == K_OFF) sounding = false; }
+            // required promotion: the first note-off of a key that was sounding before this tick goes before every note-on of the tick, wherever it stands in the row
+            if(sounding) { int first_off = -1; for(size_t x = 0; x < v.size(); x++) if(exp[v[x]].kind == K_OFF && (first_off < 0 || exp[v[x]].idx < exp[v[(size_t)first_off]].idx)) first_off = (int)x;
+                if(first_off >= 0) for(size_t y = 0; y < v.size(); y++) if(exp[v[y]].kind == K_ON && order_of[v[y]] < order_of[v[(size_t)first_off]]) {
+                    snprintf(b, sizeof b, "track %d tick %u: the key was sounding before this tick, but the note-on (index %d) was delivered before the first note-off of the tick (index %d)", (int)k, exp[v[y]].tick, exp[v[y]].idx, exp[v[(size_t)first_off]].idx);
+                    o.fail("C07/order/sounding-note-not-shut-before-noteon", b + ctx); return; } }
+            { std::vector<size_t> dv = v; std::sort(dv.begin(), dv.end(), [&](size_t x, size_t y) { return order_of[x] < order_of[y]; });   // state after the tick: in delivery order
+              for(size_t x : dv) { if(exp[x].kind == K_ON) sounding = true; else if(exp[x].kind == K_OFF) sounding = false; } }
         }
         // across ticks: delivery order follows tick order
         for(size_t i = 0; i < exp.size(); i++) for(size_t j = 0; j < exp.size(); j++) if(exp[i].track == (int)k && exp[j].track == (int)k && exp[i].matched && exp[j].matched && exp[i].kind != K_EOT && exp[j].kind != K_EOT && exp[i].row < exp[j].row && order_of[i] > order_of[j]) {
@@ -273,6 +283,13 @@ int main(int argc, char **argv) {
         int n = thorough ? 4 : 3;
         { en::Family F; F.name = "one_track"; F.count = seqs_upto(52, n) * 2; F.chunk = 256; F.budget_s = 20; F.describe = "every format-0 file with up to " + std::to_string(n) + " (delta, event) pairs, delta in {0,1,96,200}, 13 event kinds (notes, vel-0 note-on, CC7, program, bend, pressures, SysEx, text, marker, two tempi), End-of-Track at delta {0,96}; division 96; tick-driven with the returned delay";
           F.run = [](uint64_t i, en::CaseOut &o) { Song s = song1(i >> 1, 0, 96, false, (i & 1) ? 96 : 0); if((i >> 1) % 30011 == 5) o.sample = song_str(s); Cfg c; check_c07(s, c, o); };
+          fams.push_back(F); }
+        { int nn = thorough ? 10 : 8;   // note-only rows: the same-tick ordering rule depends on what earlier rows left sounding, so long chains of presses/releases/re-triggers of one key matter
+          static const int NK[] = {K_ON, K_OFF, K_ON0, K_CC7}; 
+          en::Family F; F.name = "note_rows"; F.count = seqs_upto(4, nn) + seqs_upto(8, thorough ? 7 : 6); F.chunk = 256; F.budget_s = 30; F.describe = "every format-0 file of up to " + std::to_string(nn) + " events over {noteOn 60, noteOff 60} x delta {0,1} (chains of presses, releases, zero-length notes and same-tick re-triggers of one key), and of up to " + std::to_string(thorough ? 7 : 6) + " events over {noteOn, noteOff, noteOn vel 0 (key 61), cc7} x delta {0,1}";
+          F.run = [nn](uint64_t i, en::CaseOut &o) { Song s; s.format = 0; s.division = 96; s.tracks.resize(1); s.eot_delta = {0}; std::vector<uint64_t> dg; uint64_t first = seqs_upto(4, nn);
+            if(i < first) { nth_seq(i, 4, dg); for(auto x : dg) s.tracks[0].push_back({(uint32_t)(x % 2), NK[x / 2]}); } else { nth_seq(i - first, 8, dg); for(auto x : dg) s.tracks[0].push_back({(uint32_t)(x % 2), NK[x / 2]}); }
+            if(i % 10007 == 3) o.sample = song_str(s); Cfg c; check_c07(s, c, o); };
           fams.push_back(F); }
         { static const unsigned DIV[] = {1, 96, 480}; static const double MU[] = {0.5, 1.0, 2.0}; static const int REQ[] = {2, 64, 1024, 1026, 70000};
           int n2 = thorough ? 3 : 2; uint64_t files = seqs_upto(52, n2);
